@@ -2,6 +2,8 @@ import NixModel.Pure.NdArray
 import NixModel.Lemmas.C01Steps
 import NixModel.Lemmas.C01History
 import NixModel.Lemmas.C01Region
+import NixModel.Lemmas.C01Gen
+import NixModel.Lemmas.C01Typed
 
 /-!
 # C01 — array data is stored and returned exactly (type, shape, values)
@@ -11,7 +13,7 @@ Property theorems only; helper lemmas live in `NixModel/Lemmas/C01*.lean`.  All 
 compression enum and resolution statements regenerated from the source (`Generated/Compression.lean`).
 -/
 namespace Nix.C01
-open Nix Nix.Nd Nix.Nd.Lemmas Nix.Gen.Compr
+open Nix Nix.Nd Nix.Nd.Lemmas Nix.Gen.Compr Nix.NdGen
 
 /-- `append` along an axis that names a dimension, with equal rank and equal other extents, reads back as the
 concatenation — shape included, pointwise on every multi-index, for every rank, axis and extent (0 included);
@@ -221,5 +223,182 @@ theorem C01_compression_table (file block array : Compression) (refetched : Bool
     resolveCompression file block array refetched
       = decide (effective file block array refetched = .deflateNormal) := by
   cases file <;> cases block <;> cases array <;> cases refetched <;> decide
+
+/-! ## the source, compiled (`Generated/DataSetShape.lean`), is the model
+
+`harness/extract/datasetshape.py` compiles the array I/O methods of nixio from the Python source into Lean
+definitions on every run; the theorems below state that those definitions are, for all inputs, the hand-written
+model (`Pure/NdStore.lean`) the theorems of this file are about.  An edit of the source (a reordered or dropped
+check in `append`, another offset / enlarge expression, a dropped restore, `if not slc` for `if slc is None`,
+another single-value test or exception class, a changed argument rule of `create_data_array`) changes a
+generated definition and breaks one of them. -/
+
+/-- `DataSet.append` as written in data_set.py is `appendS`: rank check, axis check, per-axis shape check
+excluding `axis` (in this order, each a ValueError that leaves the array alone), offset, enlarge, resize,
+hyperslab write of the contiguous data, restore of the old extent when the write raises -/
+theorem C01_source_append (A : DArr) (d : Arr) (axis : Int) :
+    Nix.Gen.DataSet.dsAppend A d axis = appendS A d axis := dsAppend_eq A d axis
+
+/-- `DataSet.__setitem__`, `write_direct`, `_write_data`, `H5DataSet.write_data` as written: the whole dataset
+iff the index is `None` (not: iff it is falsy), otherwise exactly the indexed region -/
+theorem C01_source_write (A : DArr) (d : Arr) (ix : IndexArg) :
+    Nix.Gen.DataSet.dsSetItem A ix d = writeData A d ix ∧
+    Nix.Gen.DataSet.dsWriteDirect A d = writeData A d .none ∧
+    writeData A d .none = h5SetItem A fullSlice d ∧
+    (ix.isNone = false → writeData A d ix = h5SetItem A ix d) ∧
+    Nix.Gen.DataSet.h5WriteDataNoneBranch = "data = np.full(self.shape, np.nan)[slc]" := by
+  refine ⟨dsSetItem_eq A ix d, dsWriteDirect_eq A d, rfl, ?_, rfl⟩
+  intro h
+  cases ix with
+  | none => simp [IndexArg.isNone] at h
+  | one i => rfl
+  | tuple l => rfl
+
+/-- `DataSet.__getitem__` → `DataArray._read_data` → `DataSet._read_data` → `H5DataSet.read_data` as written:
+`None` reads everything, h5py's ValueError / TypeError become IndexError, a 0-d result (and only that) comes
+back with shape (1,); the statements that follow (string decoding, calibration) are pinned as text -/
+theorem C01_source_read (A : DArr) (ix : IndexArg) :
+    Nix.Gen.DataSet.dsGetItem A ix = readData A ix ∧
+    Nix.Gen.DataSet.dsReadDataDefault = IndexArg.none ∧
+    Nix.Gen.DataSet.h5ReadDataTail =
+      ["if isinstance(data, (bytes, str)):\n    data = np.array(ensure_str(data), dtype=object)\nelif data.dtype == util.vlen_str_dtype:\n    data = np.reshape(np.array(list(map(ensure_str, data.ravel())), dtype=object), data.shape)\nelif data.dtype.fields:\n    data = self._convert_string_cols(data)",
+       "return data"] ∧
+    Nix.Gen.DataSet.daReadDataCalibration =
+      (["coeff = self.polynom_coefficients", "origin = self.expansion_origin"],
+       ["if len(coeff) or origin:\n    if not origin:\n        origin = 0.0\n    data = data.astype(DataType.Double)\n    util.apply_polynomial(coeff, origin, data)"]) :=
+  ⟨dsGetItem_eq A ix, rfl, rfl, rfl⟩
+
+/-- `len(da)` is `shape[0]`, `da.size` the product of the extents, `da.shape` the extent of the dataset -/
+theorem C01_source_len_size (A : DArr) :
+    Nix.Gen.DataSet.dsLen A = lenS A ∧ Nix.Gen.DataSet.dsSize A = sizeS A ∧
+    Nix.Gen.DataSet.dsShapeOf A = A.arr.shape.map Int.ofNat :=
+  ⟨dsLen_eq A, dsSize_eq A, rfl⟩
+
+/-- `Block.create_data_array` as written: the dtype / shape / data rules followed by `create_new` and
+`write_direct` are `createS`; the statements around them are pinned as text -/
+theorem C01_source_create (dtype : Option DType) (shape : Option (List Nat)) (data : Option Arr) (compr : Bool) :
+    (Nix.Gen.DataSet.createRules (dtype.map .nix) (shape.map (·.map Int.ofNat)) data).bind (createFrom compr)
+      = createS dtype shape data compr ∧
+    Nix.Gen.DataSet.createSequence =
+      (["util.check_entity_name_and_type(name, array_type)",
+        "data_arrays = self._h5group.open_group('data_arrays')",
+        "if name in data_arrays:\n    raise exceptions.DuplicateName('create_data_array')",
+        "if compression == Compression.Auto:\n    compression = self._compr"],
+       ["da = DataArray.create_new(self.file, self, data_arrays, name, array_type, dtype, shape, compression)",
+        "if data is not None:\n    da.write_direct(data)", "da.unit = unit", "da.label = label"]) :=
+  ⟨createRules_eq dtype shape data compr, rfl⟩
+
+/-! ## typed data: conversion, refusals, restore -/
+
+/-- data that already has the array's element type is stored as it is; whatever is stored is a value of the
+array's element type (integers saturate, floats are truncated / rounded, see `Pure/NdConv.lean`) -/
+theorem C01_conversion (t : DType) (x : Elem) :
+    (x.hasType t = true → convElem t x = x) ∧ (convElem t x).hasType t = true :=
+  ⟨convElem_exact t x, convElem_typed t x⟩
+
+/-- which kinds are refused: everything but text into a text array (TypeError), text into anything but a text
+array and floats into a boolean array (OSError); all other pairs of the 12 element types are converted -/
+theorem C01_refused_kinds (src tgt : DType) :
+    convRefusal src tgt =
+      (if tgt.kind = .text then (if src.kind = .text then none else some (.err .typeError))
+       else if src.kind = .text then some .osError
+       else if src.kind = .float ∧ tgt.kind = .bool then some .osError
+       else none) := by
+  cases src <;> cases tgt <;> rfl
+
+/-- a typed step that raised an exception leaves the array as it was — same shape, same element on every
+multi-index, same element type and filter flag.  For `append` this is the restore of `/repo` a578a3d: the
+data cannot be stored only after the dataset has been enlarged. -/
+theorem C01_raised_unchanged (A : DArr) (s : TStep) (e : IoErr) (h : (stepS A s).2 = some e) :
+    EqArr (stepS A s).1.arr A.arr ∧ (stepS A s).1.dtype = A.dtype ∧ (stepS A s).1.compressed = A.compressed :=
+  stepS_exc A s e h
+
+/-- a typed step that raised nothing did exactly what its erasure (the data converted to the array's element
+type) does in the model of `C01_history` -/
+theorem C01_performed_step (A : DArr) (s : TStep) (s' : Step) (he : s.erase A.dtype = some s')
+    (hn : (stepS A s).2 = none) : step A s' = .ok (stepS A s).1 :=
+  stepS_ok A s s' he hn
+
+/-- every history of typed write / assign / append / resize / reopen steps (index arguments without `Ellipsis`)
+reads back as the fold of the reference semantics over exactly the steps that raised nothing, their data
+converted to the array's element type; element type and filter flag never change; and every stored element is a
+value of the element type — without any hypothesis on the data -/
+theorem C01_typed_history (A : DArr) (steps : List TStep) (hp : ∀ s ∈ steps, s.plain = true) :
+    EqArr (runS A steps).arr (refRun A.dtype.fill A.arr (performed A steps)) ∧
+    (runS A steps).dtype = A.dtype ∧ (runS A steps).compressed = A.compressed ∧
+    (Typed A → Typed (runS A steps)) :=
+  ⟨(runS_refines steps A hp).1, (runS_refines steps A hp).2.1, (runS_refines steps A hp).2.2,
+   fun hA => runS_typed steps A hA⟩
+
+/-- stored elements are typed after any typed history, `Ellipsis` or not -/
+theorem C01_typed_always (A : DArr) (steps : List TStep) (hA : Typed A) : Typed (runS A steps) :=
+  runS_typed steps A hA
+
+/-- creation with data of an accepted kind: chosen element type, the data's shape, the converted data on every
+multi-index (the data itself where it already has that type) -/
+theorem C01_create_typed (dtype : Option DType) (shape : Option (List Nat)) (d0 : Arr) (compr : Bool)
+    (hsh : shapeAgrees shape (contiguous d0.a).shape = true) (htxt : ¬ (dtype = none ∧ d0.dt = .string))
+    (hk : convRefusal d0.dt (chooseDType dtype d0.dt) = none) :
+    ∃ A, createS dtype shape (some d0) compr = .ok A ∧ A.dtype = chooseDType dtype d0.dt ∧
+      A.compressed = compr ∧ A.arr.shape = (contiguous d0.a).shape ∧
+      (∀ idx, inBounds idx A.arr.shape = true →
+        A.arr.get idx = convElem (chooseDType dtype d0.dt) ((contiguous d0.a).get idx)) ∧
+      (∀ idx, inBounds idx A.arr.shape = true →
+        ((contiguous d0.a).get idx).hasType (chooseDType dtype d0.dt) = true →
+        A.arr.get idx = (contiguous d0.a).get idx) := by
+  obtain ⟨A, h0, h1, h2, h3, h4⟩ := createS_exact dtype shape d0 compr hsh htxt hk
+  exact ⟨A, h0, h1, h2, h3, h4, fun idx hb ht => by rw [h4 idx hb, convElem_exact _ _ ht]⟩
+
+/-! Non-vacuity: an int8 array takes a float source (truncated), refuses text, and keeps its extent. -/
+example : convRefusal .float64 .int8 = none ∧ convRefusal .string .int8 = some .osError ∧
+    convRefusal .int8 .string = some (.err .typeError) := ⟨rfl, rfl, rfl⟩
+example : convElem .int8 (.f64 0x4060200000000000) = .int 127 := by decide
+example : convElem .float32 (.int 16777217) = .f32 0x4b800000 := by decide
+example : (stepS ⟨.int8, false, ⟨[2], fun _ => .int 1⟩⟩
+    (.append ⟨.string, ⟨[1], fun _ => .text "a"⟩⟩ 0)).2 = some .osError := by decide
+example : (stepS ⟨.int8, false, ⟨[2], fun _ => .int 1⟩⟩
+    (.append ⟨.string, ⟨[1], fun _ => .text "a"⟩⟩ 0)).1.arr.shape = [2] := by decide
+
+/-! ## reads and index arguments -/
+
+/-- what `DataArray[ix]` returns: the hyperslab h5py selects (`None` = everything), with the shape of the
+selection — the counts of the axes indexed by slices — except that a selection of rank 0 (every axis indexed by
+an integer) comes back with shape (1,); every selection error is an IndexError -/
+theorem C01_read_rule (A : DArr) (ix : IndexArg) :
+    readData A ix =
+      (match selectIndex A.arr.shape (match ix with | .none => fullSlice | s => s) with
+       | .ok sel =>
+         .ok (if selShape sel = [] then ⟨[1], fun _ => A.arr.get (absIdx sel [])⟩ else A.arr.gather sel)
+       | .error _ => .error (.err .indexError)) :=
+  readData_rule A ix
+
+/-- index arguments without `Ellipsis` select what `select` (the selection of `C01_assign_exact`) selects; one
+`Ellipsis` stands for the missing full slices; a second one is an error -/
+theorem C01_ellipsis (sh : List Nat) (pre post : List Ix) :
+    selectIndex sh (.tuple ((pre ++ post).map .ix)) = select sh (pre ++ post) ∧
+    (pre.length + post.length ≤ sh.length →
+      selectIndex sh (.tuple (pre.map .ix ++ .ellipsis :: post.map .ix)) =
+        select sh (pre ++ List.replicate (sh.length - pre.length - post.length) (Ix.slice none none none) ++ post)) ∧
+    (∀ rest, ∃ e, selectIndex sh
+      (.tuple (pre.map .ix ++ .ellipsis :: (post.map .ix ++ .ellipsis :: rest))) = .error e) :=
+  ⟨selectIndex_plain sh _ _ (plainItems_map _), selectIndex_ellipsis sh pre post,
+   fun rest => selectIndex_two_ellipses sh _ _ rest ⟨pre, plainItems_map pre⟩ ⟨post, plainItems_map post⟩⟩
+
+example : selectIndex [2, 3, 4] (.tuple [.ix (.int 1), .ellipsis]) = .ok [⟨1, 1, 1, true⟩, ⟨0, 1, 3, false⟩,
+    ⟨0, 1, 4, false⟩] := rfl
+example : selectIndex [2, 3] (.one .ellipsis) = select [2, 3] [] := rfl
+
+/-- shrink, then grow (`data_extent`): an element survives iff its multi-index is inside the array before,
+between and after; everything else reads as the fill value of the element type -/
+theorem C01_shrink_grow_fill (A B C : DArr) (e1 e2 : List Int)
+    (h1 : setExtent A e1 = .ok B) (h2 : setExtent B e2 = .ok C) :
+    C.dtype = A.dtype ∧ C.arr.shape = e2.map Int.toNat ∧
+      ∀ idx, C.arr.get idx =
+        if inBounds idx B.arr.shape = true ∧ inBounds idx A.arr.shape = true then A.arr.get idx
+        else A.dtype.fill :=
+  shrink_grow A B C e1 e2 h1 h2
+
+example : ∃ B C, setExtent ⟨.int8, false, ⟨[3], fun _ => .int 7⟩⟩ [1] = .ok B ∧ setExtent B [3] = .ok C ∧
+    C.arr.get [0] = .int 7 ∧ C.arr.get [2] = .int 0 := ⟨_, _, rfl, rfl, rfl, rfl⟩
 
 end Nix.C01
